@@ -18,7 +18,7 @@ from ..fx import make_xknx, start_xknx, stop_xknx
 from ..vloop import ms, virtual_world
 
 
-def run_hist(cd_ms, events, seed=0):
+def run_hist(cd_ms, events, seed=0, periodic_ms=0):
     """events: list of (gap_ms, kind, value) with kind in set | skip | init | read"""
     from xknx.devices import ExposeSensor
     from xknx.telegram import GroupAddress, IndividualAddress, Telegram, TelegramDirection
@@ -30,7 +30,7 @@ def run_hist(cd_ms, events, seed=0):
 
         async def main():
             xknx, sent = make_xknx(loop)
-            es = ExposeSensor(xknx, "e", group_address="1/1/1", value_type="pulse", cooldown=cd_ms / 1000)
+            es = ExposeSensor(xknx, "e", group_address="1/1/1", value_type="pulse", cooldown=cd_ms / 1000, periodic_send=periodic_ms / 1000)
             xknx.devices.async_add(es)
             await start_xknx(xknx)
             orig = xknx.knxip_interface.send_cemi
@@ -58,12 +58,12 @@ def run_hist(cd_ms, events, seed=0):
                     ev.append({"ev": "read", "t": now()})
                     xknx.telegrams.put_nowait(Telegram(GroupAddress("1/1/1"), direction=TelegramDirection.INCOMING,
                                                        payload=GroupValueRead(), source_address=IndividualAddress("1.1.7")))
-            await asyncio.sleep(3 * cd_ms / 1000 + 5)
+            await asyncio.sleep(3 * cd_ms / 1000 + 5 + 2 * periodic_ms / 1000)
             ev.append({"ev": "end", "t": now()})
             await stop_xknx(xknx)
 
         loop.run_until_complete(main())
-    return {"cd": cd_ms, "ev": ev}
+    return {"cd": cd_ms, "per": 1 if periodic_ms else 0, "ev": ev}
 
 
 def plans(ck):
@@ -82,6 +82,11 @@ def plans(ck):
             m = rnd.randrange(4, 14)
             out.append((cd, [(rnd.choice([0, 0, 1, 300, cd // 3, cd // 2, max(cd - 1, 0), cd, cd + 1, 2 * cd + 7]),
                               *rnd.choice(kinds + [("set", 4), ("skip", 4), ("set", 1)])) for _ in range(m)]))
+    # periodic sending configured (period shorter and longer than the cooldown): the pending value must still get out
+    for cd, per in ((10000, 4000), (2000, 4000), (0, 4000)):
+        for _ in range(60 if ck.tier == "quick" else 800):
+            m = rnd.randrange(2, 8)
+            out.append((cd, [(rnd.choice([0, 1000, cd // 2, cd + 1, per - 1, per + 1]), *rnd.choice(kinds + [("set", 4)])) for _ in range(m)], per))
     return out
 
 
@@ -90,38 +95,39 @@ def run(ck):
     ck.assume("initialize_value counts as 'treated as sent': it creates no obligation to transmit")
     tlc.mc(ck, "dev/Expose_MC", require_actions=False)
     ps = plans(ck)
-    traces = [run_hist(cd, evs, ck.seed) for cd, evs in ps]
+    ps = [p if len(p) == 3 else (*p, 0) for p in ps]
+    traces = [run_hist(cd, evs, ck.seed, per) for cd, evs, per in ps]
     res = tlc.batch(ck, "dev/Expose_Trace", traces, min_per_shard=100)
     for idx, info in sorted(res.bad.items()):
         t = traces[idx]["ev"]
         l = info if isinstance(info, int) else 0
         e = t[l - 1] if 0 < l <= len(t) else None
-        ck.violation({"cooldown_ms": ps[idx][0], "history": [list(x) for x in ps[idx][1]], "rejected": {k: v for k, v in (e or {}).items() if k != "t"}},
+        ck.violation({"cooldown_ms": ps[idx][0], "periodic_ms": ps[idx][2], "history": [list(x) for x in ps[idx][1]], "rejected": {k: v for k, v in (e or {}).items() if k != "t"}},
                      f"expose sensor trace (cooldown {ps[idx][0]} ms) rejected at event {l}: {e}; history {ps[idx][1]}; trace {t[:l]}",
-                     {"cd": ps[idx][0], "events": ps[idx][1], "trace": t, "rejected_at": l})
+                     {"cd": ps[idx][0], "events": ps[idx][1], "per": ps[idx][2], "trace": t, "rejected_at": l})
     muts = []
     for i, tr in enumerate(traces):
         if i in res.bad or len(muts) >= 200:
             continue
         t = tr["ev"]
         ws = [k for k, e in enumerate(t) if e["ev"] == "tx" and e["kind"] == "write"]
-        if tr["cd"] and len(ws) >= 2:
+        if tr["cd"] and len(ws) >= 2 and not tr["per"]:
             a = [dict(e) for e in t]
             a[ws[1]]["t"] = a[ws[0]]["t"] + tr["cd"] - 100          # second update telegram inside the cooldown
             if all(a[j]["t"] <= a[j + 1]["t"] for j in range(len(a) - 1)):
-                muts.append({"cd": tr["cd"], "ev": a})
+                muts.append({"cd": tr["cd"], "per": tr["per"], "ev": a})
         if ws and t[ws[-1]]["v"] != 9:
             last_sets = [e for e in t if e["ev"] in ("set", "init")]
             if last_sets and last_sets[-1]["ev"] == "set" and last_sets[-1]["v"] == t[ws[-1]]["v"] and \
                not any(e["ev"] == "tx" and e["kind"] == "response" for e in t[ws[-1]:]) and \
                sum(1 for e in t if e["ev"] == "tx" and e["v"] == t[ws[-1]]["v"]) == 1 and \
                not any(e["ev"] == "init" and e["v"] == t[ws[-1]]["v"] for e in t):
-                muts.append({"cd": tr["cd"], "ev": [e for k, e in enumerate(t) if k != ws[-1]]})   # the last value never reached the bus
+                muts.append({"cd": tr["cd"], "per": tr["per"], "ev": [e for k, e in enumerate(t) if k != ws[-1]]})   # the last value never reached the bus
         rs = [k for k, e in enumerate(t) if e["ev"] == "tx" and e["kind"] == "response"]
         if rs:
             c = [dict(e) for e in t]
             c[rs[0]]["v"] = 77                                       # a read answered with another value
-            muts.append({"cd": tr["cd"], "ev": c})
+            muts.append({"cd": tr["cd"], "per": tr["per"], "ev": c})
     r2 = tlc.batch(ck, "dev/Expose_Trace", muts, min_per_shard=100)
     if not muts or len(r2.bad) != len(muts):
         acc = [m for k, m in enumerate(muts) if k not in r2.bad][:2]
@@ -135,7 +141,7 @@ def replay(ck, path):
     import json
 
     d = json.loads(open(path).read())["replay"]
-    t = run_hist(d["cd"], [tuple(x) for x in d["events"]], ck.seed)
+    t = run_hist(d["cd"], [tuple(x) for x in d["events"]], ck.seed, d.get("per", 0))
     res = tlc.batch(ck, "dev/Expose_Trace", [t])
     l = res.bad.get(0)
     print("trace:", t["ev"], "\nrejected at:", l)
